@@ -90,6 +90,9 @@ def spread_case(rng):
 
 def random_case(rng):
     r = rng.random()
+    if r < 0.03:
+        # empty offer reserve (a pair that only ever received a one-sided transfer)
+        return 0, gen.amount128(rng), max(1, gen.amount128(rng)), "x0"
     if r < 0.15:
         # x+a straddling 10^18
         x = rng.randrange(1, D)
